@@ -543,15 +543,10 @@ def skeleton(m: P1Model):
     from sa import sveval
     PC = ("p", chunk)
 
+    from sa.chunkcond import chunk_only as _co, taken_for as _tf
+
     def chunk_only(sv):
-        if not isinstance(sv, tuple) or not sv:
-            return True
-        h = sv[0]
-        if h == "p":
-            return sv == PC
-        if h in ("f0", "prop", "g", "l", "new", "iter", "mut", "await", "bound", "havoc", "opaque", "sent", "calldyn"):
-            return h == "g" and isinstance(sv[1], str) and sv[1].isupper()  # a module constant
-        return all(chunk_only(x) for x in sv[1:] if isinstance(x, tuple))
+        return _co(sv, PC)
 
     def consts_env():
         env = {}
@@ -572,21 +567,20 @@ def skeleton(m: P1Model):
 
     def taken_for(conds):
         """the sample chunks for which every chunk-only condition has the recorded outcome; None when one cannot be evaluated"""
-        out = []
-        for smp in EMPTY + NOLF + WLF:
-            env = dict(CENV)
-            env[PC] = smp
-            try:
-                if all(bool(sveval.ev(g, env)) == pol for g, pol in conds):
-                    out.append(smp)
-            except (sveval.CannotEval, KeyError, TypeError, IndexError):
-                return None
-        return out
+        return _tf(conds, PC, EMPTY + NOLF + WLF, CENV)
     for p in E.run(fn):
         Hm = None
         unknown = []
         cconds = []
+        first_buf = next((e for e in p.effects if e[0] == "callm" and e[1] == m.f0(m.buffer)), None)
+        ext_first = first_buf is not None and first_buf[3] == (PC,)
         for g, pol, ln in p.guards:
+            if ext_first and g[0] == "cmp" and g[1] in ("Eq", "NotEq", "Gt", "Lt", "GtE", "LtE") and g[2][0] == "len" and g[3][0] == "len" and g[2][1] == m.f0(m.buffer) == g[3][1] \
+                    and {(g[2][2] if len(g[2]) > 2 else 0), (g[3][2] if len(g[3]) > 2 else 0)} == {0, 1}:
+                # len(buffer) after extend(chunk) against len(buffer) before it: the difference is len(chunk)
+                after_left = (g[2][2] if len(g[2]) > 2 else 0) == 1
+                op_ = g[1] if after_left else {"Gt": "Lt", "Lt": "Gt", "GtE": "LtE", "LtE": "GtE"}.get(g[1], g[1])
+                g = ("cmp", op_, ("len", PC, 0), ("c", 0))
             if g == hunt0 or (g[0] == "prop" and g[2] == "is_in_hunt_mode"):
                 Hm = pol
             else:
